@@ -1,10 +1,10 @@
 package subrig
 
 import (
-	"sync/atomic"
 	"fmt"
 	"math/rand/v2"
 	"sort"
+	"sync/atomic"
 	"time"
 
 	"verifharness/internal/fw"
